@@ -223,15 +223,10 @@ Definition ok_bf_used_zero (c : cfg) (ops : list op) (rs : list result) : bool :
    document of an accepted add_pilots command -- counts; a task placed by the
    algorithm must go to a pilot none of whose reports so far lies beyond
    BF_STOP (a pilot once reported final never becomes eligible again).
-   Evaluated on the trace alone.  strict = true also counts the reports of a
-   state notification batch which the component left with an exception. *)
-Definition reports_of (strict : bool) (o : op) (e : option serr) : list (Z * Z) :=
+   Evaluated on the trace alone. *)
+Definition reports_of (o : op) (e : option serr) : list (Z * Z) :=
   match o with
-  | OPStates ps =>
-      match e with
-      | Some _ => if strict then map (fun x => (fst x, pvalue (snd x))) ps else []
-      | None => map (fun x => (fst x, pvalue (snd x))) ps
-      end
+  | OPStates ps => map (fun x => (fst x, pvalue (snd x))) ps
   | OAdd TForeign _ => []
   | OAdd _ ps =>
       match e with
@@ -243,17 +238,17 @@ Definition reports_of (strict : bool) (o : op) (e : option serr) : list (Z * Z) 
 Definition elig_asg (c : cfg) (acc : list (Z * Z)) (a : asg) : bool :=
   negb (sched_asg a)
   || forallb (fun x => negb (fst x =? a_pid a) || (snd x <=? c_stop c)) acc.
-Fixpoint el_fold (strict : bool) (c : cfg) (ops : list op) (rs : list result) (acc : list (Z * Z)) : bool :=
+Fixpoint el_fold (c : cfg) (ops : list op) (rs : list result) (acc : list (Z * Z)) : bool :=
   match ops, rs with
   | o :: ro, r :: rr =>
-      let acc' := acc ++ reports_of strict o (snd (fst r)) in
-      forallb (elig_asg c acc') (asgs_of (fst (fst r))) && el_fold strict c ro rr acc'
+      let acc' := acc ++ reports_of o (snd (fst r)) in
+      forallb (elig_asg c acc') (asgs_of (fst (fst r))) && el_fold c ro rr acc'
   | _, _ => true
   end.
-Definition ok_bf_eligible (strict : bool) (c : cfg) (ops : list op) (rs : list result) : bool :=
+Definition ok_bf_eligible (c : cfg) (ops : list op) (rs : list result) : bool :=
   match c_kind c with
   | RR => true
-  | BF => el_fold strict c ops rs []
+  | BF => el_fold c ops rs []
   end.
 
 (* ---------------- the row ---------------- *)
@@ -268,4 +263,4 @@ Definition c12_row (c : cfg) (ops : list op) (obs : list result) (sb : list (Z *
     ok_rr_balance c ops obs;
     ok_bf_window c ops obs;
     ok_bf_used_zero c ops obs;
-    ok_bf_eligible true c ops obs ].
+    ok_bf_eligible c ops obs ].
